@@ -10,7 +10,14 @@
    breadth-first walk of verify_chain_of_matches level by level: chain_length is a
    "visited" mark (0, or the level of the piece), visited matches have all their
    in-gap predecessors visited, visited heads are reported; the greedy reset clears
-   the marks only after the whole walk has reached the heads. *)
+   the marks only after the whole walk has reached the heads.
+
+   The walk is proved once for an abstract predicate R "what a confirmed head start
+   satisfies in the match list": `reported` gives the completeness theorem; for a greedy
+   pattern "reported with an end >= the end of this walk's tail" gives
+   chain_greedy_longest: the end reported for a start is at least the end of EVERY event
+   of the last piece that closes a chain from it (between two events a greedy pattern has
+   no marked head, so every walk re-reports every head it reaches). *)
 From Coq Require Import List NArith Bool Arith Lia Sorted.
 From YV Require Import Pat.Syntax Pat.Sem Pat.Matcher Pat.MatcherProofs Pat.Modifiers Pat.MatchList Pat.MatchListProofs
                        Pat.Chain Pat.ChainProofs Pat.ChainRun Pat.ChainRunProofs.
@@ -188,9 +195,19 @@ Section Complete.
   Qed.
 
   (* ---- one walk: verify_chain_of_matches for the tail match s_t..e_t ------------- *)
+  Definition reported (ml : match_list) (s : nat) : Prop := In (N.of_nat s) (starts ml).
+
   Section Walk.
     Variable s_t e_t : nat.
     Variable st0 : ustate.                 (* the state when the walk starts: fixes the skeleton *)
+    (* what the walk establishes about the head starts it confirms: `reported` (the start
+       is in the list) for completeness, "reported with an end >= e_t" for the greedy
+       end; all it needs is that adding a match of this walk establishes / keeps it *)
+    Variable R : match_list -> nat -> Prop.
+    Hypothesis R_new : forall ml s, sorted ml ->
+      R (fst (ml_add ml (mkM (N.of_nat s) (N.of_nat e_t) None) greedy)) s.
+    Hypothesis R_mono : forall ml s s', sorted ml -> R ml s ->
+      R (fst (ml_add ml (mkM (N.of_nat s') (N.of_nat e_t) None) greedy)) s.
     Definition tailum : um := mkUM s_t e_t 1.
     Definition nd (st : ustate) (k : nat) : list um := if Nat.eqb k n then [tailum] else stv st k.
 
@@ -201,7 +218,6 @@ Section Complete.
       end.
     Definition pend (queue : list (nat * um)) (k : nat) (m : um) : Prop :=
       exists c, In (k, c) queue /\ se c = se m.
-    Definition reported (ml : match_list) (s : nat) : Prop := In (N.of_nat s) (starts ml).
 
     (* (start, end) pairs connected to the tail match through in-gap steps *)
     Inductive conn : nat -> nat * nat -> Prop :=
@@ -219,23 +235,25 @@ Section Complete.
       forall k m, In m (stv st k) -> k < n /\ (um_cl m = 0 \/ um_cl m = Lv k).
     Definition cl_inv (queue : list (nat * um)) (st : ustate) (ml : match_list) : Prop :=
       forall k m, In m (nd st k) -> um_cl m <> 0 ->
-        pend queue k m \/ (closed st k m /\ (k = 0 -> reported ml (um_s m))).
+        pend queue k m \/ (closed st k m /\ (k = 0 -> R ml (um_s m))).
     Definition tc_inv (queue : list (nat * um)) (tct : option nat) : Prop :=
       if greedy then In (n, tailum) queue \/ tct = Some (n - 1) else tct = None.
     Definition req_inv (queue : list (nat * um)) (ml : match_list) : Prop :=
       forall p, conn 0 p ->
-        reported ml (fst p) \/ (exists c, In (0, c) queue /\ um_s c = fst p) \/ ~ heads_only queue.
+        R ml (fst p) \/ (exists c, In (0, c) queue /\ um_s c = fst p) \/ ~ heads_only queue.
 
     Definition Inv (fuel : nat) (queue : list (nat * um)) (tct : option nat) (st : ustate) (ml : match_list) : Prop :=
       sorted ml /\ skel st /\ levels st /\ u_get st (n - 1) <> None /\ qshape queue /\ req_inv queue ml /\
-      ((cl_inv queue st ml /\ tc_inv queue tct /\ length queue + total_zeros st <= fuel) \/
+      ((cl_inv queue st ml /\ tc_inv queue tct /\ length queue + total_zeros st <= fuel /\
+        (greedy = true -> forall m, In m (stv st 0) -> um_cl m <> 0 -> pend queue 0 m)) \/
        (zero_all st /\ heads_only queue /\ greedy = true /\ tct = Some (n - 1) /\ length queue <= fuel)).
 
     Definition Post (ml0 : match_list) (st : ustate) (ml : match_list) : Prop :=
       sorted ml /\ skel st /\ levels st /\
-      (forall k m, In m (stv st k) -> um_cl m <> 0 -> closed st k m /\ (k = 0 -> reported ml (um_s m))) /\
-      (forall p, conn 0 p -> reported ml (fst p)) /\
-      (forall s, reported ml0 s -> reported ml s).
+      (forall k m, In m (stv st k) -> um_cl m <> 0 -> closed st k m /\ (k = 0 -> R ml (um_s m))) /\
+      (forall p, conn 0 p -> R ml (fst p)) /\
+      (forall s, reported ml0 s -> reported ml s) /\
+      (greedy = true -> forall m, In m (stv st 0) -> um_cl m = 0).
 
     Lemma qshape_front : forall id c q, qshape ((id, c) :: q) ->
       exists q1 q2, q = map (pair id) q1 ++ map (pair (id - 1)) q2 /\ id <= n /\ (id = 0 -> q2 = []) /\
@@ -296,12 +314,15 @@ Section Complete.
       (forall s, reported ml0 s -> reported ml s) -> Post ml0 st ml.
     Proof.
       intros fuel tct st ml ml0 [Hso [Hsk [Hlv [_ [_ [Hreq Hdis]]]]]] Hmono.
-      split; [exact Hso|]. split; [exact Hsk|]. split; [exact Hlv|]. split; [|split; [|exact Hmono]].
+      split; [exact Hso|]. split; [exact Hsk|]. split; [exact Hlv|]. split; [|split; [|split; [exact Hmono|]]].
       - intros k m Hm Hmk. destruct Hdis as [[Hcl _]|[Hz _]].
         + destruct (Hlv k m Hm) as [Hk _]. rewrite <- (nd_lt st k Hk) in Hm.
           destruct (Hcl k m Hm Hmk) as [[c [[] _]]|H]. exact H.
         + exfalso. apply Hmk. apply (Hz k m Hm).
       - intros p Hp. destruct (Hreq p Hp) as [H|[[c [[] _]]|H]]; [exact H|]. exfalso. apply H. apply heads_only_nil.
+      - intros Hg m Hm. destruct Hdis as [[_ [_ [_ Hhp]]]|[Hz _]]; [|apply (Hz 0 m Hm)].
+        destruct (Nat.eq_dec (um_cl m) 0) as [E|E]; [exact E|].
+        destruct (Hhp Hg m Hm E) as [c [[] _]].
     Qed.
 
     Lemma reported_add : forall ml m r s, sorted ml -> reported ml s -> reported (fst (ml_add ml m r)) s.
@@ -334,29 +355,32 @@ Section Complete.
         split; [exact Hc1|intros c0 []]. }
       split.
       { intros p Hp. destruct (Hreq p Hp) as [H|[[c0 [[E|Hin] Hs0]]|H]].
-        - left. apply reported_add; assumption.
-        - inversion E; subst c0. left. rewrite <- Hs0. apply reported_new. exact Hso.
+        - left. apply R_mono; assumption.
+        - inversion E; subst c0. left. rewrite <- Hs0. apply R_new. exact Hso.
         - right. left. exists c0. split; assumption.
         - exfalso. apply H. exact Hho'. }
-      destruct Hdis as [[Hcl [Htc Hfu]]|[Hz [_ [Hg [Ht Hfu]]]]].
-      - unfold tc_inv in Htc. destruct greedy eqn:Eg.
+      destruct Hdis as [[Hcl [Htc [Hfu Hhp]]]|[Hz [_ [Hg [Ht Hfu]]]]].
+      - unfold tc_inv in Htc. destruct (Bool.bool_dec greedy true) as [Eg|Eg].
         + (* greedy: the reset clears every mark *)
+          rewrite Eg in Htc.
           destruct Htc as [Hin|Htct]; [apply Hho' in Hin; lia|].
           right. split.
           { intros k m Hm. unfold st' in Hm. rewrite Htct in Hm.
             assert (Hk : k < n).
             { apply reset_chain_marks in Hm. destruct Hm as [m0 [Hm0 _]]. apply (Hlv k m0 Hm0). }
             apply (reset_chain_zero (S (length pieces)) st (n - 1) ltac:(lia) ltac:(lia) k m ltac:(lia) Hm). }
-          split; [exact Hho|]. split; [reflexivity|]. split; [exact Htct|]. cbn [length] in Hfu. lia.
+          split; [exact Hho|]. split; [exact Eg|]. split; [exact Htct|]. cbn [length] in Hfu. lia.
         + (* lazy: no reset *)
+          apply Bool.not_true_is_false in Eg. rewrite Eg in Htc.
           left. subst tct. assert (Est : st' = st) by reflexivity. rewrite Est. split.
           { intros k m Hm Hmk. destruct (Hcl k m Hm Hmk) as [[c0 [[E|Hin] Hse]]|[Hc Hr]].
             - inversion E; subst k c0. right. split; [exact I|]. intros _.
               replace (um_s m) with (um_s c) by (change (fst (se c) = fst (se m)); rewrite Hse; reflexivity).
-              apply reported_new. exact Hso.
+              apply R_new. exact Hso.
             - left. exists c0. split; assumption.
-            - right. split; [exact Hc|]. intro Hk0. apply reported_add; [exact Hso|apply Hr; exact Hk0]. }
-          split; [unfold tc_inv; rewrite Eg; reflexivity|]. cbn [length] in Hfu. lia.
+            - right. split; [exact Hc|]. intro Hk0. apply R_mono; [exact Hso|apply Hr; exact Hk0]. }
+          split; [unfold tc_inv; rewrite Eg; reflexivity|]. split; [cbn [length] in Hfu; lia|].
+          intro Hg'. rewrite Eg in Hg'. discriminate.
       - right. split.
         { intros k m Hm. unfold st' in Hm. apply reset_chain_marks in Hm. destruct Hm as [m0 [Hm0 [_ C]]].
           destruct C as [C|C]; rewrite C; [apply (Hz k m0 Hm0)|reflexivity]. }
@@ -399,7 +423,7 @@ Section Complete.
       intros f j' c q tct st ml [Hso [Hsk [Hlv [Hgn [Hq [Hreq Hdis]]]]]].
       destruct (qshape_front _ _ _ Hq) as [q1 [q2 [Eq [Hjn [_ [Hcc [Hc1 Hc2]]]]]]].
       replace (S j' - 1) with j' in * by lia.
-      destruct Hdis as [[Hcl [Htc Hfu]]|[_ [Hho _]]];
+      destruct Hdis as [[Hcl [Htc [Hfu Hhp]]]|[_ [Hho _]]];
         [|specialize (Hho (S j') c (or_introl eq_refl)); discriminate].
       destruct (piece_exists (S j') Hjn) as [p Ep].
       pose proof (Htail _ _ Ep) as Hlink. pose proof (Hlast _ _ Ep) as Hla. pose proof (Hgreedy _ _ Ep) as Hgr.
@@ -483,17 +507,29 @@ Section Complete.
           apply Nat.eqb_eq in Ek. subst k. rewrite <- Hsk, Hv. unfold v'. rewrite map_map. apply map_ext.
           intro m. destruct (cs_test (gp j') c m); reflexivity. }
         left. split; [exact Hcl'|]. split.
-        { unfold tc_inv in *. unfold tct'. rewrite Hla, Hgr. destruct greedy eqn:Eg.
-          - destruct (Nat.eqb (S j') n) eqn:En; cbn [andb].
+        { unfold tc_inv in *. unfold tct'. rewrite Hla, Hgr. destruct (Bool.bool_dec greedy true) as [Eg|Eg].
+          - rewrite Eg in *. destruct (Nat.eqb (S j') n) eqn:En; cbn [andb].
             + right. apply Nat.eqb_eq in En. f_equal. lia.
             + destruct Htc as [[E|Hin]|Ht]; [inversion E; apply Nat.eqb_neq in En; lia| |right; exact Ht].
               left. apply in_app_iff. left. exact Hin.
-          - rewrite andb_false_r. exact Htc. }
+          - apply Bool.not_true_is_false in Eg. rewrite Eg in *. rewrite andb_false_r. exact Htc. }
+        split.
         { rewrite app_length, map_length. cbn [length] in Hfu.
           pose proof (total_zeros_set st j' v' v Ev) as Hz.
           pose proof (scan_zeros (gp j') c v Htest0) as Hs. fold v' in Hs.
           assert (Hp : length pushed = length (filter (cs_test (gp j') c) v)) by (unfold pushed; apply map_length).
           lia. }
+        { intros Hg m Hm Hmk.
+          assert (Hq0 : forall m0, In m0 (stv st 0) -> um_cl m0 <> 0 -> pend (q ++ map (fun m1 => (j', m1)) pushed) 0 m0).
+          { intros m0 H0 Hk0. destruct (Hhp Hg m0 H0 Hk0) as [c0 [[E|Hin] Hse]]; [inversion E|].
+            exists c0. split; [apply in_app_iff; left; exact Hin|exact Hse]. }
+          rewrite stv_set in Hm. destruct (Nat.eqb j' 0) eqn:Ej; [|apply Hq0; assumption].
+          apply Nat.eqb_eq in Ej. subst j'.
+          destruct (F1 _ Hm) as [m0 [H0 [[Ht ->]|[Ht ->]]]].
+          - exists (cs_mark c m0). split; [|reflexivity].
+            apply in_app_iff. right. apply in_map_iff. exists (cs_mark c m0). split; [reflexivity|].
+            unfold pushed. apply in_map. apply filter_In. split; assumption.
+          - apply Hq0; [rewrite Hv; exact H0|exact Hmk]. }
       - (* no match of the previous piece was ever recorded *)
         exists q, tct, st. split; [reflexivity|].
         assert (Hv : stv st j' = []) by (unfold stv; rewrite Ev; reflexivity).
@@ -506,10 +542,13 @@ Section Complete.
         split; [exists (S j'), q1, q2; replace (S j' - 1) with j' by lia; repeat split; auto; discriminate|].
         split; [apply (req_from_cl _ st); assumption|].
         left. split; [exact Hcl'|]. split.
-        { unfold tc_inv in *. destruct greedy; [|exact Htc].
-          destruct Htc as [[E|Hin]|Ht]; [|left; exact Hin|right; exact Ht].
-          inversion E. exfalso. apply Hgn. replace (n - 1) with j' by lia. exact Ev. }
-        cbn [length] in Hfu. lia.
+        { unfold tc_inv in *. destruct (Bool.bool_dec greedy true) as [Eg|Eg].
+          - rewrite Eg in *. destruct Htc as [[E|Hin]|Ht]; [|left; exact Hin|right; exact Ht].
+            inversion E. exfalso. apply Hgn. replace (n - 1) with j' by lia. exact Ev.
+          - apply Bool.not_true_is_false in Eg. rewrite Eg in *. exact Htc. }
+        split; [cbn [length] in Hfu; lia|].
+        intros Hg m Hm Hmk. destruct (Hhp Hg m Hm Hmk) as [c0 [[E|Hin] Hse]]; [inversion E|].
+        exists c0. split; assumption.
     Qed.
 
     Lemma chain_loop_complete : forall f queue tct st ml ml0,
@@ -518,7 +557,7 @@ Section Complete.
     Proof.
       induction f as [|f IH]; intros queue tct st ml ml0 HI Hmono.
       - assert (queue = []).
-        { destruct HI as [_ [_ [_ [_ [_ [_ [[_ [_ H]]|[_ [_ [_ [_ H]]]]]]]]]]]; destruct queue; [reflexivity|cbn [length] in H; lia|reflexivity|cbn [length] in H; lia]. }
+        { destruct HI as [_ [_ [_ [_ [_ [_ [[_ [_ [H _]]]|[_ [_ [_ [_ H]]]]]]]]]]]; destruct queue; [reflexivity|cbn [length] in H; lia|reflexivity|cbn [length] in H; lia]. }
         subst queue. cbn [chain_loop fst snd]. eapply inv_post; eassumption.
       - destruct queue as [|[id c] q]; [cbn [chain_loop fst snd]; eapply inv_post; eassumption|].
         destruct id as [|j'].
@@ -531,16 +570,21 @@ Section Complete.
   End Walk.
 
   (* what holds between two events *)
-  Definition closedD (st : ustate) (ml : match_list) : Prop :=
-    forall k m, In m (stv st k) -> um_cl m <> 0 -> closed st k m /\ (k = 0 -> reported ml (um_s m)).
+  Definition closedR (R : match_list -> nat -> Prop) (st : ustate) (ml : match_list) : Prop :=
+    forall k m, In m (stv st k) -> um_cl m <> 0 -> closed st k m /\ (k = 0 -> R ml (um_s m)).
+  Definition closedD (st : ustate) (ml : match_list) : Prop := closedR reported st ml.
+  Definition no_marked_heads (st : ustate) : Prop := forall m, In m (stv st 0) -> um_cl m = 0.
 
-  Lemma verify_complete : forall st ml s_t e_t,
-    sorted ml -> levels st -> closedD st ml -> u_get st (n - 1) <> None ->
-    Post s_t e_t st ml (fst (verify_chain_of_matches pieces st ml n s_t e_t))
-                       (snd (verify_chain_of_matches pieces st ml n s_t e_t)).
+  Lemma verify_complete_R : forall st ml s_t e_t (R : match_list -> nat -> Prop),
+    (forall ml0 s, sorted ml0 -> R (fst (ml_add ml0 (mkM (N.of_nat s) (N.of_nat e_t) None) greedy)) s) ->
+    (forall ml0 s s', sorted ml0 -> R ml0 s -> R (fst (ml_add ml0 (mkM (N.of_nat s') (N.of_nat e_t) None) greedy)) s) ->
+    sorted ml -> levels st -> closedR R st ml -> u_get st (n - 1) <> None ->
+    (greedy = true -> no_marked_heads st) ->
+    Post s_t e_t st R ml (fst (verify_chain_of_matches pieces st ml n s_t e_t))
+                         (snd (verify_chain_of_matches pieces st ml n s_t e_t)).
   Proof.
-    intros st ml s_t e_t Hso Hlv Hcd Hgn. unfold verify_chain_of_matches.
-    apply chain_loop_complete; [|auto].
+    intros st ml s_t e_t R Rn Rm Hso Hlv Hcd Hgn Hnm. unfold verify_chain_of_matches.
+    apply chain_loop_complete; [exact Rn|exact Rm| |auto].
     split; [exact Hso|]. split; [intro k; reflexivity|]. split; [exact Hlv|]. split; [exact Hgn|].
     split.
     { exists n, [mkUM s_t e_t 1], []. cbn [map app]. split; [reflexivity|]. split; [lia|]. split; [reflexivity|].
@@ -552,8 +596,22 @@ Section Complete.
       - apply Nat.eqb_eq in Ek. subst k. destruct Hm as [<-|[]]. left. exists (tailum s_t e_t). split; [left; reflexivity|reflexivity].
       - right. apply Hcd; assumption. }
     split.
-    { unfold tc_inv. destruct greedy; [left; left; reflexivity|reflexivity]. }
-    unfold chain_fuel. cbn [length]. pose proof (total_zeros_le st). nia.
+    { unfold tc_inv. destruct (Bool.bool_dec greedy true) as [Eg|Eg].
+      - rewrite Eg. left. left. reflexivity.
+      - apply Bool.not_true_is_false in Eg. rewrite Eg. reflexivity. }
+    split; [unfold chain_fuel; cbn [length]; pose proof (total_zeros_le st); nia|].
+    intros Hg m Hm Hmk. exfalso. apply Hmk. apply (Hnm Hg m Hm).
+  Qed.
+
+  Lemma verify_complete : forall st ml s_t e_t,
+    sorted ml -> levels st -> closedD st ml -> u_get st (n - 1) <> None ->
+    (greedy = true -> no_marked_heads st) ->
+    Post s_t e_t st reported ml (fst (verify_chain_of_matches pieces st ml n s_t e_t))
+                                (snd (verify_chain_of_matches pieces st ml n s_t e_t)).
+  Proof.
+    intros st ml s_t e_t Hso Hlv Hcd Hgn Hnm. apply verify_complete_R; try assumption.
+    - intros ml0 s Hs0. unfold reported, starts. apply add_start_set; [exact Hs0|]. left. reflexivity.
+    - intros ml0 s s' Hs0 H. unfold reported, starts. apply add_start_set; [exact Hs0|]. right. exact H.
   Qed.
 
   (* ---- the events, one after the other ------------------------------------------- *)
@@ -620,7 +678,8 @@ Section Complete.
     sorted ml /\ levels st /\ closedD st ml /\
     (forall k s e s0, k < n -> left P k s e s0 -> In (s, e) (map se (stv st k))) /\
     (forall k p, In p (map se (stv st k)) -> In (k, fst p, snd p) P) /\
-    (forall s e s0, left P n s e s0 -> reported ml s0).
+    (forall s e s0, left P n s e s0 -> reported ml s0) /\
+    (greedy = true -> no_marked_heads st).
 
   Lemma wvd_of_in_gap : forall st k g s s' e', In (s', e') (map se (stv st k)) -> s' <= e' ->
     in_gap g e' s = true -> within_valid_distance st k s g = true.
@@ -675,7 +734,7 @@ Section Complete.
     OI (P ++ [(k, s, e)]) (fst (handle_piece_match pieces k s e (st, ml))) (snd (handle_piece_match pieces k s e (st, ml))).
   Proof.
     intros P k s e st ml HOI Hord Hne.
-    pose proof HOI as [Hso [Hlv [Hcd [HA [HB HE]]]]].
+    pose proof HOI as [Hso [Hlv [Hcd [HA [HB [HE Hnm]]]]]].
     assert (Hord' : forall k0 s0 e0, In (k0, s0, e0) P -> s0 < eend (k, s, e)) by exact Hord.
     assert (Hke : s <= e /\ k <= n) by (apply Hne; apply in_app_iff; right; left; reflexivity).
     assert (HneP : forall k0 s0 e0, In (k0, s0, e0) P -> s0 <= e0)
@@ -715,9 +774,13 @@ Section Complete.
         destruct (Nat.eqb k k1) eqn:Ek; [|left; apply HB; exact Hq].
         apply Nat.eqb_eq in Ek. subst k1. rewrite map_app in Hq. apply in_app_iff in Hq.
         destruct Hq as [Hq|[<-|[]]]; [left; apply HB; exact Hq|right; left; reflexivity]. }
-      intros s1 e1 s0 Hl. destruct (in_dec event_dec (n, s1, e1) P) as [Hi|Hi].
-      - apply (HE s1 e1 s0). apply Hold; assumption.
-      - pose proof (Hnew _ _ _ _ Hl Hi) as E. inversion E. lia. }
+      split.
+      { intros s1 e1 s0 Hl. destruct (in_dec event_dec (n, s1, e1) P) as [Hi|Hi].
+        - apply (HE s1 e1 s0). apply Hold; assumption.
+        - pose proof (Hnew _ _ _ _ Hl Hi) as E. inversion E. lia. }
+      intros Hg m Hm. rewrite stv_push in Hm. destruct (Nat.eqb k 0) eqn:Ek0; [|apply (Hnm Hg m Hm)].
+      apply Nat.eqb_eq in Ek0. rewrite Ek0 in Hm.
+      apply in_app_iff in Hm. destruct Hm as [Hm|[<-|[]]]; [apply (Hnm Hg m Hm)|reflexivity]. }
     (* nothing recorded: the new match is not reached by any chain *)
     assert (Hskip : (forall k' s0, k = S k' -> left (P ++ [(k, s, e)]) k s e s0 -> ~ In (k, s, e) P -> False) ->
               k <> 0 -> OI (P ++ [(k, s, e)]) st ml).
@@ -727,6 +790,7 @@ Section Complete.
         - pose proof (Hnew _ _ _ _ Hl Hi) as E. inversion E; subst k1 s1 e1.
           destruct k as [|k']; [contradiction|]. exfalso. eapply Hno; [reflexivity|exact Hl|exact Hi]. }
       split; [intros k1 q Hq; apply in_app_iff; left; apply HB; exact Hq|].
+      split; [|exact Hnm].
       intros s1 e1 s0 Hl. destruct (in_dec event_dec (n, s1, e1) P) as [Hi|Hi].
       - apply (HE s1 e1 s0). apply Hold; assumption.
       - pose proof (Hnew _ _ _ _ Hl Hi) as E. inversion E; subst k s1 e1.
@@ -743,13 +807,14 @@ Section Complete.
           { replace (n - 1) with k' by lia. unfold within_valid_distance in Ew. destruct (u_get st k'); [discriminate|discriminate]. }
           replace (verify_chain_of_matches pieces st ml (S k') s e) with (verify_chain_of_matches pieces st ml n s e)
             by (rewrite En; reflexivity).
-          pose proof (verify_complete st ml s e Hso Hlv Hcd Hgn) as [Hso' [Hsk' [Hlv' [Hcd' [Hconn Hmono]]]]].
+          pose proof (verify_complete st ml s e Hso Hlv Hcd Hgn Hnm) as [Hso' [Hsk' [Hlv' [Hcd' [Hconn [Hmono Hnm']]]]]].
           set (r := verify_chain_of_matches pieces st ml n s e) in *.
           split; [exact Hso'|]. split; [exact Hlv'|]. split; [exact Hcd'|]. split.
           { intros k1 s1 e1 s0 Hk1 Hl. rewrite (Hsk' k1). destruct (in_dec event_dec (k1, s1, e1) P) as [Hi|Hi].
             - apply (HA k1 s1 e1 s0 Hk1). apply Hold; assumption.
             - pose proof (Hnew _ _ _ _ Hl Hi) as E. inversion E. lia. }
           split; [intros k1 q Hq; rewrite (Hsk' k1) in Hq; apply in_app_iff; left; apply HB; exact Hq|].
+          split; [|exact Hnm'].
           intros s1 e1 s0 Hl. destruct (in_dec event_dec (n, s1, e1) P) as [Hi|Hi].
           { apply Hmono. apply (HE s1 e1 s0). apply Hold; [exact Hl|exact Hi]. }
           pose proof (Hnew _ _ _ _ Hl Hi) as E. inversion E; subst s1 e1.
@@ -778,7 +843,7 @@ Section Complete.
   Proof.
     split; [apply sorted_nil|]. split; [intros k m []|]. split; [intros k m []|].
     split; [intros k s e s0 _ H; apply left_in in H; destruct H|].
-    split; [intros k p []|]. intros s e s0 H. apply left_in in H. destruct H.
+    split; [intros k p []|]. split; [|intros _ m []]. intros s e s0 H. apply left_in in H. destruct H.
   Qed.
 
   Lemma oi_fold : forall rest P st ml evs, evs = P ++ rest -> ordered evs ->
@@ -803,7 +868,168 @@ Section Complete.
   Proof.
     intros evs Hord Hev s e s0 Hl. unfold run_chain, run_chain_state.
     pose proof (oi_fold evs [] [] [] evs eq_refl Hord Hev OI_nil) as H. cbv zeta in H.
-    destruct H as [_ [_ [_ [_ [_ HE]]]]]. apply (HE s e s0 Hl).
+    destruct H as [_ [_ [_ [_ [_ [HE _]]]]]]. apply (HE s e s0 Hl).
+  Qed.
+
+  (* ---- greedy: the largest closing end ---------------------------------------------- *)
+  (* the list only grows: every stored match keeps its start and its end does not shrink *)
+  Definition ml_grows (ml ml' : match_list) : Prop :=
+    forall x, In x ml -> exists y, In y ml' /\ m_start y = m_start x /\ (m_end x <= m_end y)%N.
+
+  Lemma ml_grows_refl : forall ml, ml_grows ml ml.
+  Proof. intros ml x Hx. exists x. split; [exact Hx|]. split; [reflexivity|lia]. Qed.
+
+  Lemma ml_grows_trans : forall a b c, ml_grows a b -> ml_grows b c -> ml_grows a c.
+  Proof.
+    intros a b c H1 H2 x Hx. destruct (H1 x Hx) as [y [Hy [E1 L1]]]. destruct (H2 y Hy) as [z [Hz [E2 L2]]].
+    exists z. split; [exact Hz|]. split; [congruence|lia].
+  Qed.
+
+  Lemma add_grows : forall l m r, sorted l -> ml_grows l (fst (ml_add l m r)).
+  Proof.
+    intros l m r Hs x Hx.
+    destruct (add_shape_ok l m r Hs) as [l1 l2 H1 H2 H3|l1 x0 l2 e H1 H2 H3]; cbn [fst]; subst l.
+    - exists x. split; [|split; [reflexivity|lia]]. apply in_app_iff in Hx. apply in_app_iff. cbn [In]. tauto.
+    - apply in_app_iff in Hx. cbn [In] in Hx. destruct Hx as [Hx|[Hx|Hx]].
+      + exists x. split; [apply in_app_iff; left; exact Hx|]. split; [reflexivity|lia].
+      + subst x0. exists (set_end x e). split; [apply in_app_iff; right; left; reflexivity|].
+        rewrite set_end_start, set_end_end. split; [reflexivity|]. destruct r; subst e; lia.
+      + exists x. split; [apply in_app_iff; right; right; exact Hx|]. split; [reflexivity|lia].
+  Qed.
+
+  Lemma chain_loop_grows : forall fuel te queue tct st ml, sorted ml ->
+    sorted (snd (chain_loop fuel pieces te queue tct st ml)) /\
+    ml_grows ml (snd (chain_loop fuel pieces te queue tct st ml)).
+  Proof.
+    induction fuel as [|f IH]; intros te queue tct st ml Hs; cbn [chain_loop]; [split; [exact Hs|apply ml_grows_refl]|].
+    destruct queue as [|[id cur] q]; [split; [exact Hs|apply ml_grows_refl]|].
+    destruct (nth_error pieces id) as [p|]; [|split; [exact Hs|apply ml_grows_refl]].
+    destruct (cp_link p) as [[to g]|].
+    - destruct (u_get st to) as [v|]; [|apply IH; exact Hs].
+      destruct (chain_scan g cur v) as [v' pushed]. apply IH; exact Hs.
+    - set (ml1 := fst (ml_add ml (mkM (N.of_nat (um_s cur)) (N.of_nat te) None) (cp_greedy p))).
+      assert (Hs1 : sorted ml1) by (apply add_sorted; exact Hs).
+      destruct (IH te q tct (reset_chain (S (length pieces)) pieces st tct) ml1 Hs1) as [H1 H2].
+      split; [exact H1|]. eapply ml_grows_trans; [apply add_grows; exact Hs|exact H2].
+  Qed.
+
+  Lemma handle_grows : forall id s e st ml, sorted ml ->
+    ml_grows ml (snd (handle_piece_match pieces id s e (st, ml))).
+  Proof.
+    intros id s e st ml Hs. unfold handle_piece_match.
+    destruct (nth_error pieces id) as [p|]; [|apply ml_grows_refl].
+    destruct (cp_link p) as [[to g]|]; [|apply ml_grows_refl].
+    destruct (within_valid_distance st to s g); [|apply ml_grows_refl].
+    destruct (cp_last p); [|apply ml_grows_refl].
+    unfold verify_chain_of_matches. apply chain_loop_grows. exact Hs.
+  Qed.
+
+  (* reported with an end that is at least e_t *)
+  Definition Rg (e_t : nat) (ml : match_list) (s : nat) : Prop :=
+    exists y, In y ml /\ m_start y = N.of_nat s /\ (N.of_nat e_t <= m_end y)%N.
+
+  Lemma Rg_new : forall e_t ml s, sorted ml ->
+    Rg e_t (fst (ml_add ml (mkM (N.of_nat s) (N.of_nat e_t) None) true)) s.
+  Proof.
+    intros e_t ml s Hs. set (m := mkM (N.of_nat s) (N.of_nat e_t) None).
+    assert (Hin : In (N.of_nat s) (map m_start (fst (ml_add ml m true)))) by (apply add_start_set; [exact Hs|left; reflexivity]).
+    apply in_map_iff in Hin. destruct Hin as [y [Ey Hy]]. exists y. split; [exact Hy|]. split; [exact Ey|].
+    destruct (add_true_result_end ml m y Hs Hy Ey) as [[_ H]|[x [_ [_ H]]]]; rewrite H; cbn [m m_end]; lia.
+  Qed.
+
+  Lemma Rg_mono : forall e_t ml s s', sorted ml -> Rg e_t ml s ->
+    Rg e_t (fst (ml_add ml (mkM (N.of_nat s') (N.of_nat e_t) None) true)) s.
+  Proof.
+    intros e_t ml s s' Hs [y [Hy [Ey Ly]]].
+    destruct (add_grows ml (mkM (N.of_nat s') (N.of_nat e_t) None) true Hs y Hy) as [z [Hz [Ez Lz]]].
+    exists z. split; [exact Hz|]. split; [congruence|lia].
+  Qed.
+
+  (* the invariant between two events, greedy: every closing event has been honoured *)
+  Definition GE (P : list event) (ml : match_list) : Prop :=
+    forall s e s0, left P n s e s0 -> exists y, In y ml /\ m_start y = N.of_nat s0 /\ (N.of_nat e <= m_end y)%N.
+
+  Lemma ge_step : forall P k s e st ml,
+    greedy = true -> OI P st ml -> GE P ml ->
+    (forall k0 s0 e0, In (k0, s0, e0) P -> s0 < e) ->
+    (forall k0 s0 e0, In (k0, s0, e0) (P ++ [(k, s, e)]) -> s0 <= e0 /\ k0 <= n) ->
+    GE (P ++ [(k, s, e)]) (snd (handle_piece_match pieces k s e (st, ml))).
+  Proof.
+    intros P k s e st ml Hg HOI HGE Hord Hne s1 e1 s0 Hl.
+    pose proof HOI as [Hso [Hlv [Hcd [HA [HB [HE Hnm]]]]]].
+    assert (Hord' : forall k0 s2 e2, In (k0, s2, e2) P -> s2 < eend (k, s, e)) by exact Hord.
+    destruct (in_dec event_dec (n, s1, e1) P) as [Hi|Hi].
+    - (* an older closing event: what was stored only grows *)
+      pose proof (left_old P _ Hord' _ _ _ _ Hl Hi) as Hlo.
+      destruct (HGE s1 e1 s0 Hlo) as [y [Hy [Ey Ly]]].
+      destruct (handle_grows k s e st ml Hso y Hy) as [z [Hz [Ez Lz]]].
+      exists z. split; [exact Hz|]. split; [congruence|lia].
+    - (* the new event closes a chain: its walk reports the start with its end *)
+      assert (E : (n, s1, e1) = (k, s, e)).
+      { pose proof (left_in _ _ _ _ _ Hl) as Hin. apply in_app_iff in Hin. destruct Hin as [Hin|[Hin|[]]]; [contradiction|symmetry; exact Hin]. }
+      inversion E as [[En E1 E2]]. subst s1 e1. clear E.
+      destruct k as [|k']; [lia|].
+      assert (Hl' : left (P ++ [(S k', s, e)]) (S k') s e s0) by (rewrite <- En at 2; exact Hl).
+      assert (Hi' : ~ In (S k', s, e) P) by (rewrite <- En; exact Hi).
+      destruct (left_new P _ Hord' _ _ _ _ Hl' Hi') as [_ [s' [e' [Hlp Hgap]]]].
+      assert (Hk' : k' < n) by lia.
+      pose proof (HA k' s' e' s0 Hk' Hlp) as Hin.
+      assert (Hse : s' <= e').
+      { pose proof (HB k' (s', e') Hin) as HinP. cbn [fst snd] in HinP.
+        destruct (Hne k' s' e') as [H _]; [apply in_app_iff; left; exact HinP|exact H]. }
+      pose proof (wvd_of_in_gap st k' (gp k') s s' e' Hin Hse Hgap) as Hw.
+      destruct (piece_exists (S k') ltac:(lia)) as [p Ep].
+      unfold handle_piece_match. rewrite Ep, (Htail _ _ Ep), Hw, (Hlast _ _ Ep).
+      replace (Nat.eqb (S k') n) with true by (symmetry; apply Nat.eqb_eq; lia).
+      replace (verify_chain_of_matches pieces st ml (S k') s e) with (verify_chain_of_matches pieces st ml n s e)
+        by (rewrite En; reflexivity).
+      assert (Hgn : u_get st (n - 1) <> None).
+      { replace (n - 1) with k' by lia. unfold within_valid_distance in Hw. destruct (u_get st k'); discriminate. }
+      assert (Hcr : closedR (Rg e) st ml).
+      { intros k1 m Hm Hmk. destruct (Hcd k1 m Hm Hmk) as [Hc _]. split; [exact Hc|].
+        intro E0. subst k1. exfalso. apply Hmk. apply (Hnm Hg m Hm). }
+      assert (Rn : forall ml0 s2, sorted ml0 -> Rg e (fst (ml_add ml0 (mkM (N.of_nat s2) (N.of_nat e) None) greedy)) s2)
+        by (intros; rewrite Hg; apply Rg_new; assumption).
+      assert (Rm : forall ml0 s2 s3, sorted ml0 -> Rg e ml0 s2 -> Rg e (fst (ml_add ml0 (mkM (N.of_nat s3) (N.of_nat e) None) greedy)) s2)
+        by (intros; rewrite Hg; apply Rg_mono; assumption).
+      pose proof (verify_complete_R st ml s e (Rg e) Rn Rm Hso Hlv Hcr Hgn Hnm) as [_ [_ [_ [_ [Hconn _]]]]].
+      assert (Hc : conn s e st k' (s', e')).
+      { apply (conn_step s e st k' (s', e') (s, e)); [exact Hk'|exact Hin|exact Hgap|rewrite <- En; apply conn_tail]. }
+      destruct (left_conn P st ml s e s0 HOI k' s' e' Hk' Hlp Hc) as [e0 Hc0].
+      apply (Hconn (s0, e0) Hc0).
+  Qed.
+
+  Lemma og_fold : forall rest P st ml evs, greedy = true -> evs = P ++ rest -> ordered evs ->
+    (forall k s e, In (k, s, e) evs -> s <= e /\ k <= n) -> OI P st ml -> GE P ml ->
+    let r := fold_left (fun sm ev => let '(id, s, e) := ev in handle_piece_match pieces id s e sm) rest (st, ml) in
+    OI evs (fst r) (snd r) /\ GE evs (snd r).
+  Proof.
+    induction rest as [|[[k s] e] rest IH]; intros P st ml evs Hg E Hord Hev HOI HGE; cbn [fold_left].
+    - rewrite app_nil_r in E. subst evs. split; assumption.
+    - assert (E' : evs = (P ++ [(k, s, e)]) ++ rest) by (rewrite <- app_assoc; exact E).
+      assert (Ho : forall k0 s0 e0, In (k0, s0, e0) P -> s0 < e) by (intros k0 s0 e0 Hin; apply (Hord P (k, s, e) rest E k0 s0 e0 Hin)).
+      assert (Hn' : forall k0 s0 e0, In (k0, s0, e0) (P ++ [(k, s, e)]) -> s0 <= e0 /\ k0 <= n)
+        by (intros k0 s0 e0 Hin; apply Hev; rewrite E'; apply in_app_iff; left; exact Hin).
+      pose proof (oi_step P k s e st ml HOI Ho Hn') as Hstep.
+      pose proof (ge_step P k s e st ml Hg HOI HGE Ho Hn') as Hge.
+      destruct (handle_piece_match pieces k s e (st, ml)) as [st1 ml1] eqn:Eh. cbn [fst snd] in Hstep, Hge.
+      apply (IH (P ++ [(k, s, e)]) st1 ml1 evs Hg E' Hord Hev Hstep Hge).
+  Qed.
+
+  (* GREEDY: the end reported for a start is at least the end of every event of the last
+     piece that closes a chain from that start -- with run_chain_end_closes: the LARGEST *)
+  Theorem chain_greedy_longest : forall evs,
+    greedy = true -> ordered evs -> (forall k s e, In (k, s, e) evs -> s <= e /\ k <= n) ->
+    forall y s0, In y (run_chain pieces evs) -> m_start y = N.of_nat s0 ->
+    forall s' e', left evs n s' e' s0 -> (N.of_nat e' <= m_end y)%N.
+  Proof.
+    intros evs Hg Hord Hev y s0 Hy Hys s' e' Hl. unfold run_chain, run_chain_state in Hy.
+    assert (HGE0 : GE [] []) by (intros s e s1 H; apply left_in in H; destruct H).
+    pose proof (og_fold evs [] [] [] evs Hg eq_refl Hord Hev OI_nil HGE0) as H. cbv zeta in H.
+    destruct H as [[Hso _] HGE]. destruct (HGE s' e' s0 Hl) as [z [Hz [Ez Lz]]].
+    assert (y = z).
+    { apply (sorted_start_inj _ y z Hso Hy Hz). congruence. }
+    subst z. exact Lz.
   Qed.
 End Complete.
 
